@@ -194,30 +194,34 @@ pub fn add_rounding() {
 
 // ------------------------------------------------------------------ C15: float shift forms
 
-/// x << k, x <<= k, x >> k, x >>= k agree on (significand, exponent) and equal exponent arithmetic
-pub fn fbig_shift<const B: Word>() {
+/// x << k and x <<= k (right == false) or x >> k and x >>= k (right == true) agree on (significand, exponent)
+/// and equal plain exponent arithmetic
+pub fn fbig_shift<const B: Word>(right: bool) {
     let sig: i64 = nd::any();
     nd::assume(sig > -(1 << 30) && sig < (1 << 30) && sig % (B as i64) != 0);
     let e: i32 = nd::any();
     let k: i32 = nd::any();
     nd::assume(e > -1000 && e < 1000 && k > -1000 && k < 1000);
     let mk = || FBig::<mode::Zero, B>::from_parts(small_i(sig), e as isize);
-    let a = mk() << k as isize;
-    let mut b = mk();
-    b <<= k as isize;
-    let c = mk() >> k as isize;
-    let mut d = mk();
-    d >>= k as isize;
     let get = |x: &FBig<mode::Zero, B>| -> (i64, isize) {
         let r = x.repr();
         let (s, w) = r.significand().as_sign_words();
         let m = if w.is_empty() { 0 } else { w[0] as i64 };
         (if s == NEG { -m } else { m }, r.exponent())
     };
-    assert!(get(&a) == (sig, (e + k) as isize));
-    assert!(get(&b) == get(&a), "<<= differs from <<");
-    assert!(get(&c) == (sig, (e - k) as isize));
-    assert!(get(&d) == get(&c), ">>= differs from >>");
+    if right {
+        let c = mk() >> k as isize;
+        let mut d = mk();
+        d >>= k as isize;
+        assert!(get(&c) == (sig, (e - k) as isize));
+        assert!(get(&d) == get(&c), ">>= differs from >>");
+    } else {
+        let a = mk() << k as isize;
+        let mut b = mk();
+        b <<= k as isize;
+        assert!(get(&a) == (sig, (e + k) as isize));
+        assert!(get(&b) == get(&a), "<<= differs from <<");
+    }
 }
 
 /// zero stays zero under every shift form
